@@ -27,6 +27,7 @@ type Contract struct {
 	Key      string // "(*T).Method", "Func", or "Iface.Method" for interface contracts
 	Iface    bool
 	Requires []Clause
+	Assumed  []Clause // data-structure invariants assumed at entry, not demanded from callers (listed as assumptions)
 	Ensures  []Clause
 	Modifies []Clause // each a location expression
 	HasMod   bool     // a modifies clause was given (possibly "nothing")
@@ -58,7 +59,7 @@ type ContractSet struct {
 	Files      []string
 }
 
-var clauseKw = regexp.MustCompile(`^(func|iface|callback|spawn|fieldinv|revent|event|step|uses|assumes|requires|ensures|modifies|loop|invariant|decreases|unroll|trusted|props|safety|noinline|global-invariant|lemma|typeinv|end)\b`)
+var clauseKw = regexp.MustCompile(`^(func|iface|callback|spawn|fieldinv|revent|event|step|uses|assumes|assume|requires|ensures|modifies|loop|invariant|decreases|unroll|trusted|props|safety|noinline|global-invariant|lemma|typeinv|end)\b`)
 
 // LoadContracts reads //@ comment blocks from the given files.
 func LoadContracts(files ...string) (*ContractSet, error) {
@@ -181,12 +182,14 @@ func (cs *ContractSet) loadFile(path string) error {
 				return fmt.Errorf("%s:%d: clause %q outside func block", path, r.line, r.kw)
 			}
 			switch r.kw {
-			case "requires", "ensures", "invariant", "decreases", "event", "revent", "step":
+			case "requires", "ensures", "invariant", "decreases", "event", "revent", "step", "assume":
 				c, err := mkClause(r)
 				if err != nil {
 					return err
 				}
 				switch r.kw {
+				case "assume":
+					cur.Assumed = append(cur.Assumed, c)
 				case "step":
 					if curLoop == nil {
 						return fmt.Errorf("%s:%d: step outside loop", path, r.line)
